@@ -37,8 +37,8 @@ def _spec_for(i: int, seed: int) -> dict:
         return sp
     if m < 8:
         return specs.or_split_variant(rng) if m < 7 else specs.first_of_failing(rng)
-    lib = [specs.first_of(3), specs.quorum(3, 2), specs.quorum(4, 3), specs.jump_loop(2, 3), specs.jump_side_branch(2), specs.forward_jump(), specs.racing_failure(), specs.synthetic(), specs.failed_continue()]
-    return lib[(i // 10) % len(lib)]
+    lib = [specs.first_of(3), specs.quorum(3, 2), specs.quorum(4, 3), specs.jump_loop(2, 3), specs.jump_side_branch(2), specs.forward_jump(), specs.racing_failure(), specs.synthetic(), specs.failed_continue(), specs.two_target_jumps("a"), specs.two_target_jumps("b")]
+    return lib[(i // 10 * 2 + (m - 8)) % len(lib)]
 
 
 def gen_cases(tier: str, seed: int) -> list[dict]:
